@@ -70,6 +70,13 @@ CLAIMED.update({
    note="Relative to the simulator (harness/vlib/src/simnet.rs), which is written from the ETG specifications and shares no code with ethercrab. Virtual time."),
 })
 
+CLAIMED.update({
+ "C11": dict(engine="simnet", category="fault_enumeration", design_ref="§5 C11",
+   technique="property-based fault injection against the simulated segment: generated combinations of responders, expected counts and wire-altered counters for every checked primitive (exact oracle), and device absence / drop-out at generated datagram positions for composite operations (ground-truth oracle)",
+   text="Primitives: receive, receive_slice, send_receive, send_receive_slice with FPxx/APxx/Bxx addressing, expectation default/with_wkc(0..3)/ignore_wkc, 0..3 devices answering and the counter altered on the wire: the result must be the working-counter error with exactly (expected, received) iff a check is configured and the counts differ, else exactly the returned bytes. Composites (EEPROM read, SDO read/write, register read, status, group transitions) run against a device that is absent throughout or drops out at datagram k and stays out: Ok is accepted only if the value equals the device's ground truth and the transfer / state change really happened; an absent device must give WorkingCounter{1,0}.",
+   note="Ground truth (who serviced which datagram) is the simulator's. WrappedWrite::send is outside the quantifier."),
+})
+
 NOT_YET = {}
 
 ALL = [f"C{i:02d}" for i in range(1,21)]
@@ -105,7 +112,7 @@ def main():
         {"name":"pdusim","path":"harness/vlib","serves_properties":[p for p in CLAIMED if CLAIMED[p]["engine"]=="pdusim"],"kind_free_text":"PDU-loop harness: real frame builder / TX / RX driven op by op under a virtual clock, reference frame encoder, slot snapshots through verif-hooks"},
         {"name":"sii","path":"harness/vlib/src/sii.rs","serves_properties":["C12","C13","C14"],"kind_free_text":"independent SII EEPROM encoder + in-memory EepromDataProvider (4/8 byte chunks, read budget), driven through the verif-hooks SiiQueries facade"},
         {"name":"wiregen","path":"harness/vlib/src/wiregen.rs","serves_properties":["C19"],"kind_free_text":"derive-program generator, Rust source emitter, request/response executor, bit-level reference packer"},
-        {"name":"simnet","path":"harness/vlib/src/simnet.rs","serves_properties":["C09"],"kind_free_text":"simulated EtherCAT segment: frame walk over ESC register/SII/SM/FMMU/AL/mailbox(CoE)/DC models, deterministic executor under the virtual clock, coherent device generator"},
+        {"name":"simnet","path":"harness/vlib/src/simnet.rs","serves_properties":["C09","C11"],"kind_free_text":"simulated EtherCAT segment: frame walk over ESC register/SII/SM/FMMU/AL/mailbox(CoE)/DC models, deterministic executor under the virtual clock, coherent device generator"},
         {"name":"a2","path":"harness/vlib/src/a2.rs","serves_properties":["C01","C02","C06"],"kind_free_text":"yield-level scheduler: parties as ucontext coroutines on one thread, baton handed over at every verif-hooks point, schedules generated (random/PCT) or enumerated (pre-emption bounded), ownership monitor"},
       ],
       "checks":checks,
